@@ -97,6 +97,9 @@ def gen_graph(rng):
         opts.append(("--version", rng.choice(names + [None]), True))
     opts.append(("--g-0", None, True))
     flags = {'_help_if_no_args': rng.random() < 0.3, '_no_log_file': rng.random() < 0.3}
+    if rng.random() < 0.15:
+        # (the switch given as 'not set': None, 0 or the empty text - the standard verbosity option is there)
+        flags['_no_log'] = rng.choice([None, 0, ''])
     if rng.random() < 0.2:
         # the application does its own logging: the standard verbosity option is switched off and its names are free
         # for an option of the application
@@ -164,6 +167,9 @@ def judge(ctx, g, case):
                     onoff, dest = flag.split(":")
                     kw = {'action': 'store_true' if onoff == "on" else 'store_false', 'dest': dest,
                           'default': None}
+                if len(o) % 4 == 1 and not isinstance(flag, str):
+                    # (the help text of the option is given - as 'there is none')
+                    kw['help'] = None if len(o) % 8 == 1 else ""
                 if owner is None:
                     ap.add_argument(o, **kw)
                 else:
